@@ -1,6 +1,6 @@
 SPECIFICATION SpecM
-CONSTANTS MaxNodes = 6 Kinds <- KindsQ Pos <- PosQ3 Keys <- KeysQ
-VIEW ShapeView
+CONSTANTS MaxNodes = 4 Kinds <- KindsQ Pos <- PosQ3 Keys <- KeysQ
+VIEW View
 INVARIANTS TypeOK WellFormed OnceInForest Refines QueryInv
 PROPERTIES QueryAgree CloneIso ReleaseOnce
 CHECK_DEADLOCK FALSE
